@@ -111,6 +111,7 @@ func (fx *fnExec) execCall(dst *ssa.Call, c *ssa.CallCommon, where string) {
 		fx.v.inferMods(callee, ms, map[*ssa.Function]bool{})
 	} else {
 		ms.all = true
+		fx.v.opaqueGhostMods(c, ms)
 	}
 	fx.havoc(ms, "call")
 	fx.havocShared()
@@ -540,4 +541,28 @@ func freshOnlyPrefixes(e Expr) []string {
 		}
 	}
 	return nil
+}
+
+// plainData: values through which a callee cannot reach the environment (no interfaces, functions, channels, maps
+// or pointers to foreign objects).
+func plainData(t types.Type, depth int) bool {
+	if depth > 4 {
+		return false
+	}
+	switch u := t.Underlying().(type) {
+	case *types.Basic:
+		return true
+	case *types.Slice:
+		return plainData(u.Elem(), depth+1)
+	case *types.Array:
+		return plainData(u.Elem(), depth+1)
+	case *types.Struct:
+		for i := 0; i < u.NumFields(); i++ {
+			if !plainData(u.Field(i).Type(), depth+1) {
+				return false
+			}
+		}
+		return true
+	}
+	return false
 }
